@@ -27,11 +27,14 @@ def _main_check(ctx: Ctx) -> None:
 
     fi, loop, m, wt = midi.writer_table(p)
     ctx.analysed(fi)
-    for T_ in ("NOTE_ON", "NOTE_OFF", "TIME_SIGNATURE", "KEY_SIGNATURE", "CONTROL_CHANGE"):
+    # no branch at all: the writer does not dispatch with tests on `message_type` (a table of builders, ...) -- outside the model, not
+    # "nothing is written"; the accumulation rule below is still judged (it does not depend on how the kinds are told apart)
+    ctx.floor(f"{fi.qualname}: branches of the writer selected by a test on message_type", len(wt), 1)
+    for T_ in (("NOTE_ON", "NOTE_OFF", "TIME_SIGNATURE", "KEY_SIGNATURE", "CONTROL_CHANGE") if wt else ()):
         ctx.require("KINDS", f"{fi.qualname}: a branch selected by `message_type == {T_}` writes a mido message", 1 if T_ in wt else 0, 1, function=fi.qualname,
                     construct=f"the writer has no branch that emits {T_} events", message=f"branches found for {sorted(str(k) for k in wt)}: {T_} events are not written to the file",
                     file=fi.file, node=loop)
-    if len(wt) < 5:
+    if 0 < len(wt) < 5:
         return
     # --- ACC2
     # the delta buffer by role: the variable the emitted mido messages take their `time=` from
@@ -58,6 +61,16 @@ def _main_check(ctx: Ctx) -> None:
                     and (buf is None or x.target.id == buf):
                 buf = x.target.id
                 aug = x
+    if buf is None:
+        # no constructor in sight (the messages are built elsewhere): the local that starts at 0 before the loop and is assigned from the
+        # message's time in it
+        zero = {t_.id for s_ in fi.node.body if s_.lineno < loop.lineno and isinstance(s_, ast.Assign) and isinstance(s_.value, ast.Constant) and s_.value.value == 0
+                for t_ in s_.targets if isinstance(t_, ast.Name)}
+        for x in ast.walk(loop):
+            if isinstance(x, (ast.Assign, ast.AugAssign)):
+                tg = x.targets[0] if isinstance(x, ast.Assign) else x.target
+                if isinstance(tg, ast.Name) and tg.id in zero and any(_is_msg_time(y) for y in ast.walk(x.value)):
+                    buf = tg.id
     if buf is None:
         raise AnalysisError("MidiTrack.to_mido_track: delta-time buffer not found")
     if aug is None:
@@ -91,6 +104,8 @@ def _main_check(ctx: Ctx) -> None:
         ok = okl and not any(isinstance(x, ast.BoolOp) and isinstance(x.op, ast.Or) for x in ast.walk(g.test))
         ctx.check(ok, "ACC2", f"{fi.qualname}: accumulation skipped only for messages without a time", function=fi.qualname,
                   construct="delta buffer accumulation guarded by an unrelated condition", message=short(g.test), file=fi.file, node=g)
+    if not wt:
+        return                  # what is emitted per kind is not readable off this writer (floor above)
     for T in p.enum_order("MessageType"):
         tc = TypeCase(p, fi, {m}, T)
         exits = tc.run_body(loop.body)
